@@ -1126,6 +1126,65 @@ func (r *vpRun) createScope(w *vpWorld, from int, ctx int) {
 
 type vpCtxKey struct{}
 
+// the generic helpers Resolve / ResolveKeyed / ResolveGroup are thin wrappers over Get*: for the types
+// below the harness goes through them, so that they take part in the correspondence
+func vpHelperGet(tg Provider, t reflect.Type, name string) (any, error, bool) {
+	switch t {
+	case slotType(0):
+		if name == "" {
+			v, err := Resolve[*PS0](tg)
+			return vpNilIfZero(v, err)
+		}
+		v, err := ResolveKeyed[*PS0](tg, name)
+		return vpNilIfZero(v, err)
+	case slotType(6):
+		if name == "" {
+			v, err := Resolve[*PD0](tg)
+			return vpNilIfZero(v, err)
+		}
+		v, err := ResolveKeyed[*PD0](tg, name)
+		return vpNilIfZero(v, err)
+	case vpIfaces[0]:
+		if name == "" {
+			v, err := Resolve[VI0](tg)
+			if err != nil {
+				return nil, err, true
+			}
+			return v, nil, true
+		}
+	}
+	return nil, nil, false
+}
+
+func vpNilIfZero[T any](v T, err error) (any, error, bool) {
+	if err != nil {
+		return nil, err, true
+	}
+	return v, nil, true
+}
+
+func vpHelperGroup(tg Provider, t reflect.Type, group string) ([]any, error, bool) {
+	conv := func(n int, at func(int) any, err error) ([]any, error, bool) {
+		if err != nil {
+			return nil, err, true
+		}
+		out := make([]any, n)
+		for i := range out {
+			out[i] = at(i)
+		}
+		return out, nil, true
+	}
+	switch t {
+	case slotType(0):
+		v, err := ResolveGroup[*PS0](tg, group)
+		return conv(len(v), func(i int) any { return v[i] }, err)
+	case slotType(6):
+		v, err := ResolveGroup[*PD0](tg, group)
+		return conv(len(v), func(i int) any { return v[i] }, err)
+	}
+	return nil, nil, false
+}
+
 func (r *vpRun) get(w *vpWorld, s int, t reflect.Type, name string) {
 	tg, tn := w.target(s)
 	var v any
@@ -1136,7 +1195,10 @@ func (r *vpRun) get(w *vpWorld, s int, t reflect.Type, name string) {
 	}
 	op := fmt.Sprintf("p get %s %d %d", tn, w.typeID(t), key)
 	if guard(w, "Get", func() {
-		if name == "" {
+		if hv, herr, ok := vpHelperGet(tg, t, name); ok {
+			r.stats["generic_helper_calls"]++
+			v, err = hv, herr
+		} else if name == "" {
 			v, err = tg.Get(t)
 		} else {
 			v, err = tg.GetKeyed(t, name)
@@ -1173,7 +1235,14 @@ func (r *vpRun) getGroup(w *vpWorld, s int, t reflect.Type, group string) {
 	var v []any
 	var err error
 	op := fmt.Sprintf("p getg %s %d %d", tn, w.typeID(t), w.grpID(group))
-	if guard(w, "GetGroup", func() { v, err = tg.GetGroup(t, group) }) {
+	if guard(w, "GetGroup", func() {
+		if hv, herr, ok := vpHelperGroup(tg, t, group); ok {
+			r.stats["generic_helper_calls"]++
+			v, err = hv, herr
+		} else {
+			v, err = tg.GetGroup(t, group)
+		}
+	}) {
 		r.emit(op, map[bool]string{true: "hang", false: "panic"}[w.hung]+w.flushEvents())
 		return
 	}
